@@ -30,6 +30,7 @@ type Verdict struct {
 	SMTBytes int
 	Watch    []WatchItem
 	Values   map[string]string // contract-level expression -> value in the counterexample
+	Candidate bool             // model comes from the weakened context
 }
 
 type solverDef struct {
@@ -95,7 +96,7 @@ func Solve(o *Obligation, outDir string, timeoutS int, all bool) *Verdict {
 		// query more satisfiable, i.e. the vacuity check weaker, never unsound for the proofs)
 		var keep []string
 		for _, l := range strings.Split(script, "\n") {
-			if strings.HasPrefix(l, "(assert (forall") {
+			if strings.HasPrefix(l, "(assert ") && (strings.Contains(l, "(forall ") || strings.Contains(l, "(exists ")) {
 				continue
 			}
 			keep = append(keep, l)
@@ -200,6 +201,37 @@ func Solve(o *Obligation, outDir string, timeoutS int, all bool) *Verdict {
 		v.Values = parseValues(v.Model, o.Watch)
 	default:
 		v.Status = "undecided"
+	}
+	// No verdict on the full context: look for a counterexample candidate in the context without
+	// its quantified facts (a weaker context: a model found here may be spurious, which the replay
+	// on the real code decides; it is reported as a candidate, never as proof of anything).
+	if v.Status == "undecided" && !o.ExpectSat {
+		var keep []string
+		for _, l := range strings.Split(script, "\n") {
+			if strings.HasPrefix(l, "(assert ") && (strings.Contains(l, "(forall ") || strings.Contains(l, "(exists ")) {
+				continue
+			}
+			keep = append(keep, l)
+		}
+		wname := filepath.Join(outDir, sanitizeFile(o.Name)+".weakened.smt2")
+		_ = os.WriteFile(wname, []byte(strings.Join(keep, "\n")), 0o644)
+		wctx, wcancel := context.WithCancel(context.Background())
+		wch := make(chan SolverRun, len(solvers))
+		for _, sd := range solvers {
+			go func(sd solverDef) { wch <- runSolver(wctx, sd, wname, 5) }(sd)
+		}
+		for range solvers {
+			r := <-wch
+			if r.Result == "sat" && v.Model == "" {
+				r.Solver += " (context without quantified facts: candidate only)"
+				v.Runs = append(v.Runs, r)
+				v.Model = modelOf(r.Output)
+				v.Values = parseValues(v.Model, o.Watch)
+				v.Candidate = true
+				wcancel()
+			}
+		}
+		wcancel()
 	}
 	return v
 }
